@@ -63,7 +63,7 @@ def extraction(ctx):
 
 
 def stream_processes(ctx):
-    St = ctx.stream("O-process", "Synthesizer(...).sample() digests for 6 strategies (default, main column by name / index 0, ML target with overflowing features, none, "
+    St = ctx.stream("O-process", "Synthesizer(...).sample() digests for 7 strategies (default, default on a sampled forest, main column by name / index 0, ML target with overflowing features, none, "
                     "single) in fresh interpreters with different PYTHONHASHSEED and perturbed global random / numpy.random state; non-trivial = multi-cluster plan")
     runs = ctx.scale(3, 12)
     seed = ctx.seed
